@@ -4917,6 +4917,18 @@ fn join_continuation_lines(program: &str) -> String {
     result.join("\n")
 }
 
+/// Verification accessor: the private comment stripper used by `QueryJob::execute`.
+#[cfg(inputlayer_verif)]
+pub fn verif_strip_comments(program: &str) -> String {
+    strip_comments(program)
+}
+
+/// Verification accessor: the private continuation-line joiner used by `QueryJob::execute`.
+#[cfg(inputlayer_verif)]
+pub fn verif_join_continuation_lines(program: &str) -> String {
+    join_continuation_lines(program)
+}
+
 /// Format a rule as IQL text (uses Rule's Display impl)
 fn format_rule_text(rule: &crate::ast::Rule) -> String {
     rule.to_string()
